@@ -113,4 +113,31 @@ theorem sumMagnitudeF_eq (segs : List Seg) (h : magAbs segs < 16777216) :
   rw [foldF_eq segs 0 (by simpa using h)]
   omega
 
+/-- A time-sorted arrangement of edges with pairwise distinct times is unique. -/
+theorem sorted_perm_unique (a b : List Edge) (hp : a.Perm b) (ha : SortedT a) (hb : SortedT b)
+    (hd : a.Pairwise (fun x y => x.time ≠ y.time)) : a = b := by
+  induction a generalizing b with
+  | nil => exact (List.Perm.eq_nil hp.symm).symm
+  | cons x xs ih =>
+    cases b with
+    | nil => exact absurd (List.Perm.eq_nil hp) (by simp)
+    | cons y ys =>
+      have hxa := List.pairwise_cons.mp ha
+      have hyb := List.pairwise_cons.mp hb
+      have hxd := List.pairwise_cons.mp hd
+      have hxy : x = y := by
+        have hx : x ∈ y :: ys := hp.subset List.mem_cons_self
+        have hy : y ∈ x :: xs := hp.symm.subset List.mem_cons_self
+        rcases List.mem_cons.mp hx with h | h
+        · exact h
+        · rcases List.mem_cons.mp hy with h' | h'
+          · exact h'.symm
+          · exfalso
+            have h1 := hyb.1 x h
+            have h2 := hxa.1 y h'
+            exact hxd.1 y h' (by omega)
+      subst hxy
+      have hp' : xs.Perm ys := List.Perm.cons_inv hp
+      rw [ih ys hp' hxa.2 hyb.2 hxd.2]
+
 end ScVerif.C18
